@@ -396,10 +396,23 @@ def run(tier, seed):
                     if S != RD:
                         continue
                     if M.match(("load", ("field", RD, f, ("param", 0))), st.ops[0], {}) is not None:
-                        # the reference moves if the list head is advanced in the same block
-                        adv = [x for x in stores_to_field(mod, RD, f, [nf]) if x.block.id == st.block.id]
-                        tys = [x for x in stores_to_field(mod, RD, "curr_file_type", [nf]) if x.block.id == st.block.id and is_const(x.ops[0])]
-                        if adv and tys:
+                        # the reference moves if, on every path from this store to a return, the list head is advanced and one and the
+                        # same entry-type constant is stored (same block, or blocks this one dominates that no return can bypass)
+                        Fn = ctx.facts(nf)
+
+                        def after(cands):
+                            c2 = [x for x in cands if (x.block.id == st.block.id and x.idx > st.idx) or (x.block.id != st.block.id and nf.dominates(st.block.id, x.block.id))]
+                            if any(x.block.id == st.block.id for x in c2):
+                                return c2
+                            cut = set()
+                            for x in c2:
+                                cut |= {(x.block.id, y) for y in x.block.succs} | ({(x.block.id, "ret")} if not x.block.succs else set())
+                            if c2 and not any((r.block.id, "ret") not in cut and Fn.reaches_avoiding(st.block.id, r.block.id, cut) for r in rets(nf)):
+                                return c2
+                            return []
+                        adv = after(stores_to_field(mod, RD, f, [nf]))
+                        tys = after([x for x in stores_to_field(mod, RD, "curr_file_type", [nf]) if is_const(x.ops[0])])
+                        if adv and tys and len({const_val(x.ops[0]) for x in tys}) == 1:
                             owning_states[const_val(tys[0].ops[0])] = "taken from %s at %s" % (f, st.where())
             names = {v: k for k, v in mod.enums.items() if k.startswith("CURR_FILE_")}
             rep.extra["curr_file_owning_states"] = {names.get(k, k): v for k, v in owning_states.items()}
